@@ -266,7 +266,7 @@ def rule_key(run, F, cfg):
            "key_from_selector applies RE_PLAIN_SELECTOR.find(selector)", config=cfg)
     # the value of a hex escape is read from its digits (the optional space stripped), base 16
     fr = [k.expr_call(t) for b, t in k.calls(r"^core::num::from_str_radix$")]
-    okh = len(fr) == 1 and bool(re.search(r"core::str::strip_suffix\(.*, ' '\)", fr[0])) and fr[0].endswith(", 16)")
+    okh = len(fr) == 1 and bool(re.search(r"core::str::(strip_suffix|trim_end_matches)\(.*, ' '\)|core::str::trim_end\(", fr[0])) and fr[0].endswith(", 16)")
     hexd = [c.expr_local(0) for c in F.closures_of(k.name) if "is_ascii_hexdigit" in c.expr_local(0)]
     run.ob("C17.5.key-extraction", "hex-value-from-digits", okh and len(hexd) == 1,
            f"the code point of a hex escape is from_str_radix(<capture without its trailing space>, 16), taken only for "
@@ -285,7 +285,7 @@ def rule_key(run, F, cfg):
                 r"^discr\(<regex::CaptureMatches<'r, 'h> as std::iter::Iterator>::next\(regex::Regex::captures_iter\(",
                 r"^discr\(std::result::Result::ok\(core::num::from_str_radix\(",
                 r"^discr\(std::char::from_u32\(",
-                r"^core::str::is_empty\(", r"^<std::str::Bytes<'_> as std::iter::Iterator>::all\(core::str::bytes\(",
+                r"^core::str::is_empty\(", r"^(<std::str::(Bytes|Chars)<'_> as std::iter::Iterator>|std::iter::Iterator)::all\(core::str::(bytes|chars)\(",
                 r"^discr\(core::str::strip_suffix\(")
     stray = []
     nn = 0
